@@ -16,6 +16,21 @@ def c18_4(rep):
     common.guarded(rep, "C18.4", c10.c10_2, rep, ix, R="C18.4")
     R = "C18.5"
     rep.rule(R, "in the handwritten semantic modules, token positions and raw stream objects (line, column, start, stop, tokenIndex, source intervals) flow only into exception messages", floor=4)
+    # layout tokens can also be seen through the generic listener hooks (every token / every rule) and through token-type constants
+    LAYOUT = ("TAB", "NEWLINE", "SPACE", "COMMENT")
+    for q, f in sorted(ix.funcs.items()):
+        if f.mod not in SEMANTIC_MODULES:
+            continue
+        if f.cls and f.name in ("visitTerminal", "visitErrorNode", "enterEveryRule", "exitEveryRule") and q == f.qual:
+            body = [s_ for s_ in f.node.body if not (isinstance(s_, ast.Expr) and isinstance(s_.value, ast.Constant)) and not isinstance(s_, ast.Pass)]
+            rep.check(not body, R, ix.site(f), "the listener defines no hook that runs on every token / every rule (such a hook sees TAB, NEWLINE and the tokens of comments-free layout)",
+                      "`%s` runs on every token: what it does depends on how the script is laid out" % f.name, key="%s|generic hook" % q)
+        for c in ast.walk(f.node):
+            if isinstance(c, ast.Attribute) and c.attr in LAYOUT and isinstance(c.value, ast.Name) and c.value.id in ("blackbirdParser", "blackbirdLexer") and isinstance(c.ctx, ast.Load):
+                par_call = any(isinstance(p_, ast.Call) and p_.func is c for p_ in ast.walk(f.node))
+                if not par_call:
+                    rep.bad(R, ix.site(f, c), "semantic code does not test for layout token types", "`%s`: a token-type constant of a layout token is used (comparison with a token's type)" % u(c),
+                            key="%s|layout type %s" % (q, c.attr))
     for q, f in sorted(ix.funcs.items()):
         if f.mod not in SEMANTIC_MODULES:
             continue
